@@ -62,6 +62,10 @@ Definition ok_bytes (rs : list (result (list N))) : list (list N) :=
   map (fun r => match r with Ok b => b | _ => [] end) rs.
 End Props.
 
+(* number of spurious wake-ups in a schedule of a system with T workers (thread ids 0..T are the real
+   threads, id T+1+j is "thread j returns from cv.wait without a notification", see PipeConc.step) *)
+Definition spurious_count (T : nat) (sched : list nat) : nat := length (filter (fun t => T <? t) sched).
+
 (* a stream object that does not change the data and records every block it is given:
    instantiating the generic theorems with it states "every block is handed to exactly one
    stream -- the one owning its chunk -- exactly once and in file order" *)
